@@ -25,15 +25,16 @@ TRIGGERS = {2: "C19.guilty_without_validator_record"}
 CODES = {
     1: "an account that is not in the elected validator set opened an allegation",
     2: "a vote was accepted from a validator outside the elected set or frozen, or a second vote of the same validator",
-    3: "a stake/unstake/withdraw transaction was accepted for a frozen validator",
+    3: "a stake/unstake/withdraw transaction was accepted for a frozen validator (or one found GUILTY and not released since)",
     4: "a byzantine-fault freeze was released before the configured release time",
     5: "a verdict was reached although the votes do not cross the configured share",
     6: "guilty verdict without a frozen byzantine-fault record",
     7: "the guilty validator's stake was not reduced by exactly the penalty",
     8: "the bounty credited differs from the configured cut of the penalties or exceeds them",
     9: "a frozen byzantine-fault record changed although the validator was not released",
-    10: "a frozen validator is still active after EndBlock",
+    10: "a frozen validator (or one found GUILTY and not released since) is still active / elected after EndBlock",
     11: "a transaction that names a validator but is not signed by it was executed",
+    14: "a validator found GUILTY and not released since voted on an allegation",
     13: "the evidence status (active flag) of a staker differs from its election result: a staker outside the elected set is marked active, or an elected one inactive",
     12: "a request whose votes cross a share is still open after EndBlock (the decision is taken again every block)",
 }
